@@ -67,8 +67,10 @@ def setup(tier, build=True):
 
 def gen_case(rng, tier, index):
     if rng.random() < 0.55:
+        big = tier != "quick"
         return {"kind": "harness", "seed": rng.getrandbits(48), "runs": 60,
-                "max_n": rng.choice([6, 12, 12]), "max_T": rng.choice([3, 7])}
+                "max_n": rng.choice([6, 12, 12] + ([24, 40] if big else [])),
+                "max_T": rng.choice([3, 7] + ([12, 16] if big else []))}
     hist = eread.read_hist(rng, fmt="fb",
                            compression=rng.choice(dsgen.RUST_COMPRESSIONS),
                            max_sessions=2, splits=rng.sample(dsgen.SPLITS, 2))
